@@ -1,4 +1,4 @@
-\* C40 behaviour generator, scenario "outputs": one shortest call sequence per distinct staging state
+\* C40 behaviour generator, scenario "outputs": every builder call from every distinct staging state (reached by a shortest call sequence)
 CONSTANTS
   Scenario = "outputs"
   MaxOps = 2
@@ -13,7 +13,7 @@ CONSTANTS
   NetIds = {0, 1, 2}
   KeyHashes = {1, 2}
   Data = {}
-  BadData = {}
+  BadData = {9}
   AuxPool = {1}
   BadAux = {9}
   OutputPool <- MCOutputPool
@@ -23,6 +23,6 @@ CONSTANTS
 INIT MCInit
 NEXT MCNext
 VIEW View
-INVARIANTS BuildConforms MintNeverZero InputsSorted PointersCanonicalWhenNoDuplicates Emit
+INVARIANTS BuildConforms MintNeverZero InputsSorted PointersCanonicalWhenNoDuplicates
 PROPERTY RefinesSpec
 CHECK_DEADLOCK FALSE
